@@ -4,7 +4,7 @@
 //! also-with-features: checks
 //! Bound: `EGraph::union`: 600 (deep: 6000) pseudo-random histories of 6 insertions (terms of depth ≤ 2 over
 //! var, mul/2, f3/3, f4/4, g/1, lam, letrev, pin, nest, the 5 numeric slot names $0..$4; nodes violating the crate's
-//! per-node rule 'a bound name is not free in the same node' are not generated) and 8 unions between the inserted terms, plus 16 hand-written histories
+//! per-node rule 'a bound name is not free in the same node' are not generated) and 8 unions between the inserted terms, plus 17 hand-written histories, every history once under the unit analysis and once under a min-size analysis (whose data change, so that analysis-only updates are queued)
 //! (symmetry then redundancy, a class equated with a term that contains it, redundancy under a binder);
 //! `apply_rewrites`: 13 terms × 12 rule sets × 3 rounds and 5 terms × 10 one-rule-per-round sequences (native substitution,
 //! let-introduction, rules under binders, after a redundancy or symmetry was established).  After EVERY operation: the built-in `EGraph::check`, every
@@ -33,6 +33,14 @@ define_language! {
 }
 
 type EG = EGraph<HL, ()>;
+
+/// an analysis whose data really change (smallest term size): unions and congruences then also queue analysis-only updates
+#[derive(Default)] pub struct Size;
+impl Analysis<HL> for Size {
+    type Data = u64;
+    fn make(eg: &EGraph<HL, Self>, n: &HL) -> u64 { let mut s = 1u64; for c in n.applied_id_occurrences() { s = s.saturating_add(*eg.analysis_data(c.id)); } s }
+    fn merge(l: u64, r: u64) -> u64 { l.min(r) }
+}
 
 struct Rng(u64);
 impl Rng {
@@ -90,7 +98,7 @@ fn term_raw(r: &mut Rng, depth: u32) -> String {
 }
 
 /// the clauses of C08 that can be observed from outside, after one operation
-fn consistent(eg: &EG, handles: &[AppliedId]) -> Result<(), String> {
+fn consistent<N: Analysis<HL>>(eg: &EGraph<HL, N>, handles: &[AppliedId]) -> Result<(), String> {
     eg.check();
     let ids = eg.ids();
     let mut owner: std::collections::HashMap<HL, Id> = Default::default();
@@ -115,8 +123,8 @@ fn consistent(eg: &EG, handles: &[AppliedId]) -> Result<(), String> {
     Ok(())
 }
 
-fn run_history(adds: &[String], unions: &[(usize, usize)]) -> Result<(), String> {
-    let mut eg = EG::default();
+fn run_history<N: Analysis<HL> + Default>(adds: &[String], unions: &[(usize, usize)]) -> Result<(), String> {
+    let mut eg = EGraph::<HL, N>::default();
     let mut ids = Vec::new();
     for t in adds {
         ids.push(eg.add_expr(RecExpr::<HL>::parse(t).map_err(|e| format!("harness term does not parse: {:?}", e))?));
@@ -149,6 +157,9 @@ fn hand_written() -> Vec<(Vec<&'static str>, Vec<(usize, usize)>)> {
         // a symmetric class merged INTO a less symmetric class that has parents with differently ordered invocations of it
         (vec!["(mul (var $1) (var $2))", "(mul (var $2) (var $1))", "(app (var $1) (var $2))", "(g (app (var $1) (var $2)))", "(f3 (app (var $1) (var $2)) (app (var $2) (var $1)) zero)", "(f3 (var $2) (app (var $1) (var $2)) zero)"], vec![(0, 1), (0, 2)]),
         (vec!["(f3 (var $1) (var $2) (var $3))", "(f3 (var $2) (var $3) (var $1))", "(f4 (var $1) (var $2) (var $3) zero)", "(g (f4 (var $1) (var $2) (var $3) zero))", "(mul (f4 (var $1) (var $2) (var $3) zero) (f4 (var $2) (var $1) (var $3) zero))", "(mul (f4 (var $3) (var $1) (var $2) zero) (var $1))"], vec![(0, 1), (0, 2)]),
+        // a dying class with two parents, one of which sits in the class the other one mentions (analysis-only and full
+        // updates of the same shape meet in one rebuild), repeated so that the hash order does not matter
+        (vec!["(mul (var $1) (var $1))", "(g (var $1))", "(f3 (mul (var $1) (var $1)) (g (g (mul (var $1) (var $1)))) zero)", "(g (g (mul (var $1) (var $1))))", "(f3 (mul (var $2) (var $2)) (g (g (mul (var $2) (var $2)))) (var $2))", "(app (mul (var $1) (var $1)) (g (g (mul (var $1) (var $1)))))", "(app (g (g (mul (var $3) (var $3)))) (mul (var $3) (var $3)))"], vec![(0, 1)]),
         // redundancy under a binder
         (vec!["(lam $1 (mul (var $1) (var $2)))", "(lam $1 (mul (var $1) (var $3)))"], vec![(0, 1)]),
         (vec!["(lam $1 (f3 (var $1) (var $2) (var $3)))", "(lam $1 (f3 (var $1) (var $3) (var $2)))", "(lam $1 (f3 (var $1) (var $2) (var $8)))"], vec![(0, 1), (0, 2)]),
@@ -184,7 +195,8 @@ pub fn run(only: &[String]) -> Vec<String> {
         for (adds, unions) in hand_written() {
             let adds: Vec<String> = adds.iter().map(|x| x.to_string()).collect();
             verif_case(format!("history: add {:?}; union {:?}", adds, unions));
-            if let Err(e) = run_history(&adds, &unions) { if n < 3 { n += 1; fails.push(format!("FAIL EGraph::union C08:history.consistent history add {:?}; union {:?}: {}", adds, unions, e)); } }
+            if let Err(e) = run_history::<()>(&adds, &unions) { if n < 3 { n += 1; fails.push(format!("FAIL EGraph::union C08:history.consistent history add {:?}; union {:?}: {}", adds, unions, e)); } }
+            if let Err(e) = run_history::<Size>(&adds, &unions) { if n < 3 { n += 1; fails.push(format!("FAIL EGraph::union C08:history.consistent (with a min-size analysis) history add {:?}; union {:?}: {}", adds, unions, e)); } }
         }
         let seeds: u64 = if deep { verif_scale(6000) } else { 600 };
         for seed in 1..=seeds {
@@ -192,7 +204,8 @@ pub fn run(only: &[String]) -> Vec<String> {
             let adds: Vec<String> = (0..6).map(|_| term(&mut r, 2)).collect();
             let unions: Vec<(usize, usize)> = (0..8).map(|_| (r.next(6) as usize, r.next(6) as usize)).collect();
             verif_case(format!("history (seed {}): add {:?}; union {:?}", seed, adds, unions));
-            if let Err(e) = run_history(&adds, &unions) { if n < 3 { n += 1; fails.push(format!("FAIL EGraph::union C08:history.consistent history (seed {}) add {:?}; union {:?}: {}", seed, adds, unions, e)); } }
+            if let Err(e) = run_history::<()>(&adds, &unions) { if n < 3 { n += 1; fails.push(format!("FAIL EGraph::union C08:history.consistent history (seed {}) add {:?}; union {:?}: {}", seed, adds, unions, e)); } }
+            if let Err(e) = run_history::<Size>(&adds, &unions) { if n < 3 { n += 1; fails.push(format!("FAIL EGraph::union C08:history.consistent (with a min-size analysis) history (seed {}) add {:?}; union {:?}: {}", seed, adds, unions, e)); } }
         }
     }
 
